@@ -18,6 +18,8 @@ class Prop(BaseProp):
     theorems = ["C17_format_parse_id", "C17_marker_equiv", "C17_wrong_root_rejected", "C17_bad_component_rejected",
                 "C17_empty_inner_rejected", "C17_out_of_range_rejected", "C17_by_path_is_fold_ckd", "C17_deep_path_refuted"]
     exec_modules = ["Exec.C17"]
+    extra_modules = {"C17Src": ["C17_source_convert_hardened_is_model", "C17_source_component_range", "C17_source_out_of_range_raises", "C17_source_translated"]}
+    pysem_funcs = ["wallet_utils.Bip32Path.convert_hardened", "wallet_utils.Bip32Path.is_hardened", "wallet_utils.Bip32Path.is_private"]
     exec_import = "From BHW Require Import Lib.Base Exec.Common Exec.C17.\nFrom Coq Require Import String.\nOpen Scope string_scope."
     shard = 200
     rule = ("Parse: index lists of length 0..5 over {0,1,2^31-1,2^31,2^31+1,2^32-1,random}, both markers, both roots, formatted and parsed; "
@@ -58,7 +60,9 @@ class Prop(BaseProp):
                 faults.append("/".join(c))
             faults.append("m/" + t)
         faults += ["", "s", "x/0", "/0", "m0", "mm/0", " m/0", "m /0", "M'/0", "m//0", "m/0//0", "m/0/0//0", "m///", "m/", "m/0/", "m/0/0/0/0/0/", "0/m", "m\\0",
-                   "m/0/1/2/3/4/5/6/x", "n/44'/0'"]
+                   "m/0/1/2/3/4/5/6/x", "n/44'/0'",
+                   # ASCII separators 28..31: str.strip() removes them but int() does not (model corrected after the PySem stream found it)
+                   "m/5\x1f", "m/\x1c5", "m/5\x1f'", "m/ 5", "m/5\x0b", "m/\t5\n'", "m/5 \x1e"]
         for s in strings + deep + faults:
             if all(ord(ch) < 128 for ch in s):
                 cases.append({"kind": "Parse", "s": s})
